@@ -9,7 +9,7 @@ NUL = B("null")
 WORDS = ["range", "token", "label", "content", "version", "language", "pattern", "scheme", "folder", "symbol", "value", "detail", "selection", "document", "workspace", "provider", "support", "options", "offset", "severity", "message", "source", "target", "origin", "context", "trigger", "filter", "format", "encoding", "position", "identifier", "resolve", "dynamic", "registration", "capability", "snippet", "preview", "annotation", "metadata", "revision"]
 KW = ["class", "from", "import", "lambda", "global", "pass", "with", "yield", "async", "in", "is", "not", "def", "del", "try"]
 MIXINS = ["WorkDoneProgressParams", "PartialResultParams", "StaticRegistrationOptions", "TextDocumentPositionParams"]
-OPS = ("E1", "E2", "E3", "E4", "E5", "E6", "E7", "E8")
+OPS = ("E1", "E2", "E3", "E4", "E5", "E6", "E7", "E8", "E9", "E10", "E11")
 
 
 def camel(ws):
@@ -156,7 +156,8 @@ class Evo:
             inner = self.ty(depth + 1, allow_lit)
             if inner["kind"] == "or":
                 inner = B("string")
-            return {"kind": "or", "items": [inner, NUL]}
+            # `null` may stand anywhere among the alternatives
+            return {"kind": "or", "items": [inner, NUL] if r.random() < 0.6 else [NUL, inner]}
         if allow_lit and depth < 2:
             return {"kind": "literal", "value": {"properties": self.props(r.choice([1, 2, 3]), depth + 1, lit=True)}}
         return B("string")
@@ -227,7 +228,7 @@ class Evo:
                 self.touched.add(st["name"])
                 self.log.append("E2 %s.%s %s" % (st["name"], p["name"], p["type"]["kind"]))
 
-    def E3(self, deep=False):
+    def E3(self, deep=False, own=None):
         """extends / mixins on a NEW structure from existing or new structures (no conflicting redeclarations)."""
         nm = self.name(True)
         st = {"name": nm, "properties": []}
@@ -248,7 +249,7 @@ class Evo:
                 st["mixins"] = [R(mx)]
                 have |= self.allprops(mx)
         self.d["structures"].append(st)
-        for p in self.props(self.r.choice([0, 1, 2])):
+        for p in self.props(self.r.choice([0, 1, 2]) if own is None else own):
             if p["name"] not in have:
                 st["properties"].append(p)
         self.new_structs.append(nm)
@@ -279,14 +280,14 @@ class Evo:
             e["values"].append(v)
             self.log.append("E4 value %s.%s" % (e["name"], vn))
 
-    def E5(self, with_typename=None, kind=None, dollar=None):
+    def E5(self, with_typename=None, kind=None, dollar=None, params_last_new=False):
         r = self.r
         prefix = "$/verif" if (dollar if dollar is not None else r.random() < 0.2) else "verif/"
         m = prefix + camel([r.choice(WORDS), r.choice(WORDS)]) + str(self.n)
         if prefix == "$/verif":
             m = "$/verif" + m[len("$/verif"):][:1].upper() + m[len("$/verif") + 1:]
         self.n += 1
-        par = R(r.choice(self.new_structs or self.structs()))
+        par = R(self.new_structs[-1]) if (params_last_new and self.new_structs) else R(r.choice(self.new_structs or self.structs()))
         stem = m.split("/")[1]
         stem = stem[0].upper() + stem[1:]
         if m.startswith("$/"):
@@ -295,7 +296,7 @@ class Evo:
         if (kind or ("request" if r.random() < 0.6 else "notification")) == "request":
             res = r.choice([NUL, R(r.choice(self.structs())), {"kind": "array", "element": R(r.choice(self.structs()))}, {"kind": "or", "items": [R(r.choice(self.structs())), NUL]}])
             q = {"method": m, "messageDirection": r.choice(["clientToServer", "serverToClient", "both"]), "result": res}
-            if r.random() < 0.8:
+            if r.random() < 0.8 or params_last_new:
                 q["params"] = par
             if r.random() < 0.3:
                 q["registrationOptions"] = R(r.choice(self.structs()))
@@ -306,7 +307,7 @@ class Evo:
             self.log.append("E5 req %s typeName=%s" % (m, tn))
         else:
             q = {"method": m, "messageDirection": r.choice(["clientToServer", "serverToClient", "both"])}
-            if r.random() < 0.8:
+            if r.random() < 0.8 or params_last_new:
                 q["params"] = par
             if tn:
                 q["typeName"] = stem + "Notification"
@@ -315,7 +316,7 @@ class Evo:
             self.log.append("E5 notif %s typeName=%s" % (m, tn))
         self.new_methods.append(m)
 
-    def E8(self):
+    def E8(self, mode=None):
         """a NEW structure extends an existing one and re-declares one inherited property with a
         different optionality or a narrower type (nearest declaration wins) - as CreateFile.kind
         does in the committed model."""
@@ -331,7 +332,9 @@ class Evo:
             p = self.r.choice(cands)
             nm = self.name(True)
             q = {"name": p["name"], "type": copy.deepcopy(p["type"])}
-            mode = self.r.choice(["optionality", "literal" if p["type"]["name"] == "string" else "optionality", "nullable"])
+            if mode == "literal" and p["type"]["name"] != "string":
+                continue
+            mode = mode or self.r.choice(["optionality", "literal" if p["type"]["name"] == "string" else "optionality", "nullable"])
             if mode == "optionality":
                 if not p.get("optional"):
                     q["optional"] = True
@@ -344,6 +347,65 @@ class Evo:
             self.touched.add(nm)
             self.log.append("E8 %s extends %s redeclares %s (%s)" % (nm, base, p["name"], mode))
             return
+
+    def E9(self):
+        """spell out default flags: "optional": false on required properties (incl. null-admitting
+        ones), "proposed": false - schema-valid and meaning the same as leaving the key out."""
+        req_nullable = []
+        others = []
+        for st in self.d["structures"]:
+            for p in st["properties"]:
+                if "optional" not in p:
+                    (req_nullable if (p["type"]["kind"] == "or" and any(i == NUL for i in p["type"]["items"])) else others).append((st, p))
+        picks = req_nullable[:] + self.r.sample(others, min(12, len(others)))
+        for st, p in picks:
+            p["optional"] = False
+            self.touched.add(st["name"])
+        for st in self.r.sample(self.d["structures"], 5):
+            st.setdefault("proposed", False)
+        self.log.append("E9 explicit optional:false on %d properties (%d null-admitting)" % (len(picks), len(req_nullable)))
+
+    def E10(self):
+        """a new structure whose Python-keyword-named properties are null-admitting / string literals."""
+        nm = self.name(True)
+        kws = self.r.sample(KW, 4)
+        props = [
+            {"name": kws[0], "type": {"kind": "or", "items": [B("string"), NUL]}},
+            {"name": kws[1], "type": {"kind": "stringLiteral", "value": "verif-" + kws[1]}},
+            {"name": kws[2], "type": {"kind": "or", "items": [NUL, B("integer")]}, "optional": True},
+            {"name": kws[3], "type": B("boolean"), "optional": True},
+            {"name": "multiWord" + kws[0].title(), "type": {"kind": "or", "items": [R(self.r.choice(self.structs())), NUL]}},
+        ]
+        self.d["structures"].append({"name": nm, "properties": props})
+        self.new_structs.append(nm)
+        self.touched.add(nm)
+        self.log.append("E10 %s keyword-named special properties %s" % (nm, kws))
+
+    def E11(self):
+        """anonymous literal types in the three positions the LSP metamodel uses them (property type,
+        array element, union member) whose own properties are special: multi-word null-admitting,
+        string literal, keyword-named."""
+        nm = self.name(True)
+        kw = self.r.choice(KW)
+
+        def lit():
+            self.n += 1
+            return {"kind": "literal", "value": {"properties": [
+                {"name": "fallbackUri%d" % self.n, "type": {"kind": "or", "items": [B("DocumentUri"), NUL]}},
+                {"name": "anchorKind", "type": {"kind": "stringLiteral", "value": "verif-anchor"}},
+                {"name": kw, "type": {"kind": "or", "items": [B("uinteger"), NUL]}, "optional": True},
+                {"name": "plainLabel", "type": B("string"), "optional": True},
+            ]}}
+
+        props = [
+            {"name": "anchorDetail", "type": lit()},
+            {"name": "targetItems", "type": {"kind": "array", "element": lit()}, "optional": True},
+            {"name": "scopeChoice", "type": {"kind": "or", "items": [lit(), NUL]}},
+        ]
+        self.d["structures"].append({"name": nm, "properties": props})
+        self.new_structs.append(nm)
+        self.touched.add(nm)
+        self.log.append("E11 %s anonymous literals with special properties" % nm)
 
     def E6(self, both=False):
         sec = self.r.choice(["structures", "enumerations", "typeAliases", "requests", "notifications"])
@@ -378,7 +440,7 @@ def evolve(doc, rng, n_ops=None, force=None):
     """-> (doc, info) ; info = {log, touched structures, new structs, new enums, new methods, ops}"""
     e = Evo(doc, rng)
     k = n_ops if n_ops is not None else rng.choice([1, 2, 4, 8, 12])
-    menu = ["E1", "E1", "E2", "E2", "E3", "E4", "E5", "E5", "E6", "E7", "E8"]
+    menu = ["E1", "E1", "E2", "E2", "E3", "E4", "E5", "E5", "E6", "E7", "E8", "E10"]
     seq = list(force or []) + [rng.choice(menu) for _ in range(max(0, k - len(force or [])))]
     for op in seq:
         if isinstance(op, tuple):
